@@ -235,6 +235,9 @@ func readBack(obs *Obs, c *Case, files []FileSpec, pdir string) {
 					if !ok {
 						return true
 					}
+					if id.Name == "append" || id.Name == "panic" || id.Name == "len" || id.Name == "copy" {
+						return true // the builtin a call site is wrapped in
+					}
 					names = append(names, id.Name)
 					if obs.TypeErr == "" {
 						if why := checkCall(fset, info, call, id); why != "" {
